@@ -325,4 +325,69 @@ MUTANTS = {
         checks=["C17", "C09"],
         edits=[(L, "            pos += len(m.group(0))\n\n        success(pp_line, pp_filename)", "            pos += len(m.group(0))\n            line_end = min(n, line_end + 2)\n\n        success(pp_line, pp_filename)")],
     ),
+    "C12-scope-not-reset": dict(
+        what="parse() does not reset the scope stack",
+        checks=["C12"],
+        edits=[(P, "        self._scope_stack = [dict()]\n        self.clex.input(text, filename)", "        self.clex.input(text, filename)")],
+    ),
+    "C12-scope-reset-keeps-file-scope": dict(
+        what="parse() resets nested scopes but keeps the file scope of the previous parse",
+        checks=["C12"],
+        edits=[(P, "        self._scope_stack = [dict()]\n        self.clex.input(text, filename)", "        self._scope_stack = self._scope_stack[:1]\n        self.clex.input(text, filename)")],
+    ),
+    "C12-pending-tok": dict(
+        what="lexer input() does not clear the pending #pragma string token",
+        checks=["C12"],
+        edits=[(L, "        self._line_start = 0\n        self._pending_tok: Optional[Token] = None\n        self._lineno = 1", "        self._line_start = 0\n        if not hasattr(self, \"_pending_tok\"):\n            self._pending_tok: Optional[Token] = None\n        self._lineno = 1")],
+    ),
+    "C12-lineno-kept": dict(
+        what="lexer input() does not reset the line number",
+        checks=["C12"],
+        edits=[(L, "        self._pending_tok: Optional[Token] = None\n        self._lineno = 1", "        self._pending_tok: Optional[Token] = None\n        if not hasattr(self, \"_lineno\"):\n            self._lineno = 1")],
+    ),
+    "C12-generator-indent": dict(
+        what="CGenerator.visit_Compound does not restore the indentation level for empty blocks",
+        checks=["C12"],
+        edits=[(G, "        if n.block_items:\n            s += \"\".join(self._generate_stmt(stmt) for stmt in n.block_items)\n        self.indent_level -= 2", "        if n.block_items:\n            s += \"\".join(self._generate_stmt(stmt) for stmt in n.block_items)\n            self.indent_level -= 2\n        else:\n            self.indent_level -= 1")],
+    ),
+    "C12-int-node-cache": dict(
+        what="implicit-int IdentifierType nodes come from a module-level cache (shared between ASTs)",
+        checks=["C12", "C15"],
+        edits=[(P, "            if not isinstance(decl.type, c_ast.FuncDecl):\n                self._parse_error(\n                    \"Missing type in declaration\", decl.coord or self.clex.filename\n                )\n            typ.type = c_ast.IdentifierType([\"int\"], coord=decl.coord)", "            if not isinstance(decl.type, c_ast.FuncDecl):\n                self._parse_error(\n                    \"Missing type in declaration\", decl.coord or self.clex.filename\n                )\n            typ.type = _INT_CACHE.setdefault(str(decl.coord), c_ast.IdentifierType([\"int\"], coord=decl.coord))"),
+               (P, "_ASSIGNMENT_OPS = {", "_INT_CACHE: Dict[str, Any] = {}\n\n_ASSIGNMENT_OPS = {")],
+    ),
+    "C12-tokens-not-reset": dict(
+        what="parse() keeps the token stream of the previous parse when that one ended in an error",
+        checks=["C12"],
+        edits=[(P, "        self._tokens = _TokenStream(self.clex)\n\n        ast = self._parse_translation_unit_or_empty()", "        if self._tokens.peek() is None:\n            self._tokens = _TokenStream(self.clex)\n\n        ast = self._parse_translation_unit_or_empty()")],
+    ),
+    "C13-shared-scope-stack": dict(
+        what="scope stack shared at module level by all parsers and reset in place",
+        checks=["C13"],
+        edits=[(P, "        self._scope_stack: List[Dict[str, bool]] = [dict()]\n        self._tokens: _TokenStream = _TokenStream(self.clex)\n\n    def parse(", "        self._scope_stack: List[Dict[str, bool]] = _SHARED_SCOPES\n        self._tokens: _TokenStream = _TokenStream(self.clex)\n\n    def parse("),
+               (P, "        self._scope_stack = [dict()]\n        self.clex.input(text, filename)", "        del self._scope_stack[1:]\n        self._scope_stack[0].clear()\n        self.clex.input(text, filename)"),
+               (P, "_ASSIGNMENT_OPS = {", "_SHARED_SCOPES: List[Dict[str, bool]] = [dict()]\n\n_ASSIGNMENT_OPS = {")],
+    ),
+    "C13-typedef-memo": dict(
+        what="module-level memo of 'is this name a type' answers, cleared at the start of every parse",
+        checks=["C13"],
+        edits=[(P, '        """Is *name* a typedef-name in the current scope?"""\n        for scope in reversed(self._scope_stack):\n            # If name is an identifier in this scope it shadows typedefs in\n            # higher scopes.\n            if name in scope:\n                return scope[name]\n        return False', '        """Is *name* a typedef-name in the current scope?"""\n        key = (name, len(self._scope_stack), tuple(len(s) for s in self._scope_stack))\n        if key in _TYPE_MEMO:\n            return _TYPE_MEMO[key]\n        for scope in reversed(self._scope_stack):\n            if name in scope:\n                _TYPE_MEMO[key] = scope[name]\n                return scope[name]\n        _TYPE_MEMO[key] = False\n        return False'),
+               (P, "        self._scope_stack = [dict()]\n        self.clex.input(text, filename)", "        self._scope_stack = [dict()]\n        _TYPE_MEMO.clear()\n        self.clex.input(text, filename)"),
+               (P, "_ASSIGNMENT_OPS = {", "_TYPE_MEMO: Dict[Any, bool] = {}\n\n_ASSIGNMENT_OPS = {")],
+    ),
+    "C13-generator-indent-class": dict(
+        what="CGenerator keeps its indentation level in a class attribute shared by all generators",
+        checks=["C13"],
+        edits=[(G, "        self.indent_level = 0\n        self.reduce_parentheses = reduce_parentheses", "        CGenerator.indent_level = 0\n        self.reduce_parentheses = reduce_parentheses"),
+               (G, "        self.indent_level += 2\n        if n.block_items:", "        CGenerator.indent_level += 2\n        if n.block_items:"),
+               (G, "            s += \"\".join(self._generate_stmt(stmt) for stmt in n.block_items)\n        self.indent_level -= 2", "            s += \"\".join(self._generate_stmt(stmt) for stmt in n.block_items)\n        CGenerator.indent_level -= 2")],
+    ),
+    "C13-lexer-filename-global": dict(
+        what="the current file name of #line directives is kept in a module-level variable",
+        checks=["C13"],
+        edits=[(L, "                if pp_filename is not None:\n                    self._filename = pp_filename", "                if pp_filename is not None:\n                    global _CURRENT_FILE\n                    _CURRENT_FILE = pp_filename\n                    self._filename = pp_filename"),
+               (L, "        tok = Token(tok_type, value, self._lineno, column, self._filename)", "        tok = Token(tok_type, value, self._lineno, column, _CURRENT_FILE or self._filename)"),
+               (L, "    def _init_state(self) -> None:\n        self._lexdata = \"\"", "    def _init_state(self) -> None:\n        global _CURRENT_FILE\n        _CURRENT_FILE = None\n        self._lexdata = \"\""),
+               (L, "##\n## Reserved keywords\n##", "_CURRENT_FILE = None\n\n##\n## Reserved keywords\n##")],
+    ),
 }
